@@ -8,7 +8,7 @@
 # not depend on /verif, and one suite run takes 1.5-5 min (hanging mutants run into the 300 s timeout).
 # Everything lives under $SCRATCH and is removed at the end. Results: selftest/RESULTS.md
 SCRATCH=${SCRATCH:-/tmp/mayverif-selftest}
-OUT=/verif/selftest/RESULTS.md
+OUT=${OUT:-/verif/selftest/RESULTS.md}
 export CARGO_NET_OFFLINE=true
 rm -rf "$SCRATCH"; mkdir -p "$SCRATCH/out"
 git -C /repo worktree prune
